@@ -45,13 +45,42 @@ int valid_seteuid(object ob, string newuid) {
   if (pol["valid_seteuid"] == "own") return newuid == getuid(ob);
   return pol["valid_seteuid"];
 }
+// policy "reenter": the master does file I/O of its own before it answers (ACL-file style masters).
+//   "<efun>:<path>" = that efun on that path, "same" = the efun it is being asked about, on the same path.
+// The nested efun asks the master again; that inner question is answered without re-entering.
+int reentering;
+void reenter_op(string e, string p) {
+  switch (e) {
+  case "read_file": read_file(p); break;
+  case "read_bytes": read_bytes(p, 0, 1); break;
+  case "file_size": file_size(p); break;
+  case "get_dir": case "stat": get_dir(p); break;
+  case "write_file": write_file(p, "m\n"); break;
+  case "write_bytes": write_bytes(p, 0, "m"); break;
+  default: file_size(p);
+  }
+}
+void reenter(string path, string fn) {
+  mixed r = pol["reenter"];
+  string e, p;
+  if (!stringp(r) || reentering) return;
+  reentering = 1;
+  mlog += ({ ({ "reenter_begin", r, 0, 0 }) });
+  if (r == "same") { e = fn; p = path; }
+  else if (sscanf(r, "%s:%s", e, p) != 2) { e = "file_size"; p = r; }
+  catch(reenter_op(e, p));
+  mlog += ({ ({ "reenter_end", r, 0, 0 }) });
+  reentering = 0;
+}
 mixed valid_read(string path, mixed caller, string fn) {
   if (pol["log_fs"]) mlog += ({ ({ "valid_read", path, objectp(caller) ? file_name(caller) : caller, fn }) });
+  reenter(path, fn);
   if (undefinedp(pol["valid_read"])) return 1;
   return pol["valid_read"];
 }
 mixed valid_write(string path, mixed caller, string fn) {
   if (pol["log_fs"]) mlog += ({ ({ "valid_write", path, objectp(caller) ? file_name(caller) : caller, fn }) });
+  reenter(path, fn);
   if (undefinedp(pol["valid_write"])) return 1;
   return pol["valid_write"];
 }
